@@ -458,6 +458,52 @@ fn aligned_faults(ctx: &Ctx, rng: &mut Rng, s: &SizeInfo, b: usize, roots: &[usi
     true
 }
 
+/// "Ghost" errors: give one block the syndromes of errors at polynomial degrees >= block length,
+/// i.e. at positions that do not exist in the shortened code (only the EC part is touched).
+/// Optionally accompanied by real errors so that ghosts + real <= t: the locator is perfectly
+/// consistent, only the range check on the located positions can tell.
+fn ghost_faults(ctx: &Ctx, rng: &mut Rng, s: &SizeInfo, b: usize, faults: &mut Vec<Fault>) -> bool {
+    if !ctx.gf_ok[s.idx] {
+        return false;
+    }
+    let gf = &ctx.gf;
+    let pos = s.block_positions(b);
+    let nb = pos.len();
+    let t = s.t();
+    let roots: Vec<usize> = (1..=s.k).collect();
+    let g = gf.generator_for_roots(&roots);
+    let n_ghosts = if rng.chance(2, 3) { 1 } else { rng.range(1, t.min(3)) };
+    let mut degs: Vec<usize> = Vec::new();
+    for _ in 0..n_ghosts {
+        let d = match rng.below(6) {
+            0 | 1 => nb,     // one position in front of the first codeword
+            2 => nb + 1,
+            3 => 254,        // the last element of the multiplicative group
+            _ => rng.range(nb, 254),
+        };
+        if !degs.contains(&d) {
+            degs.push(d);
+        }
+    }
+    for d in &degs {
+        let r = gf.monomial_mod(rng.nonzero_byte(), *d, &g);
+        for (j, c) in r.iter().enumerate() {
+            if *c != 0 {
+                faults.push(Fault::new("cw_ghost", Op::CwXor { pos: pos[nb - s.k + j] as u32, mask: *c }));
+            }
+        }
+    }
+    // real companions
+    let room = t.saturating_sub(degs.len());
+    if room > 0 && rng.chance(1, 2) {
+        let v = rng.range(0, room);
+        for p in pick_block_positions(rng, s, b, v, Region::Both, PosPattern::Uniform) {
+            faults.push(value_fault(rng, ValKind::Subst, None, p));
+        }
+    }
+    true
+}
+
 /// Which syndromes (1-based exponents of alpha) an aligned fault keeps at zero.
 fn aligned_roots(rng: &mut Rng, s: &SizeInfo) -> Vec<usize> {
     let t = s.t();
@@ -827,6 +873,167 @@ fn gen_stream(rng: &mut Rng) -> Vec<u8> {
         .collect()
 }
 
+/// 255-state randomisation of Base256 (so that a crafted length / byte value survives derandomisation)
+fn rand255(val: u8, pos1: usize) -> u8 {
+    let pr = ((149 * pos1) % 255) + 1;
+    ((val as usize + pr) % 256) as u8
+}
+
+fn c40_pair(c1: u16, c2: u16, c3: u16) -> [u8; 2] {
+    let v = 1600 * c1 + 40 * c2 + c3 + 1;
+    [(v >> 8) as u8, (v & 0xFF) as u8]
+}
+
+/// A data codeword stream built from the constructs of the data decoder's grammar, with crafted
+/// corner values, truncation and illegal continuations: what a buggy third-party producer or a
+/// mis-corrected symbol can hand to decode_data / decode_str.
+pub fn fabricate_stream(rng: &mut Rng) -> Vec<u8> {
+    let mut out: Vec<u8> = Vec::new();
+    // optional head
+    match rng.below(10) {
+        0 => out.push(236),
+        1 => out.push(237),
+        2 => out.push(232),
+        3 => {
+            out.push(236);
+            out.push(232);
+        }
+        _ => {}
+    }
+    let eci_bytes = |rng: &mut Rng, out: &mut Vec<u8>| {
+        out.push(241);
+        match rng.below(8) {
+            0 => out.push(*rng.pick(&[4u8, 12, 14, 27, 28, 1, 127])), // ECI 3, 11, 13, 26, 27, 0, 126
+            1 => out.push(rng.range(1, 127) as u8),
+            2 => {
+                out.push(rng.range(128, 191) as u8);
+                out.push(*rng.pick(&[0u8, 1, 2, 254, 255, 129]));
+            }
+            3 => {
+                out.push(rng.range(192, 207) as u8);
+                out.push(*rng.pick(&[0u8, 1, 254, 255, 77]));
+                out.push(*rng.pick(&[0u8, 1, 254, 255, 77]));
+            }
+            4 => out.push(*rng.pick(&[0u8, 208, 255, 241])),
+            5 => {
+                out.push(rng.range(192, 207) as u8); // truncated designator
+            }
+            6 => {} // introducer at the very end / followed by whatever comes next
+            _ => out.push(*rng.pick(&[4u8, 12, 14, 27, 28])),
+        }
+    };
+    if rng.chance(1, 4) {
+        eci_bytes(rng, &mut out);
+    }
+    let n_tokens = rng.range(1, 6);
+    for _ in 0..n_tokens {
+        match rng.below(14) {
+            0 => {
+                for _ in 0..rng.range(1, 5) {
+                    out.push(rng.range(1, 128) as u8);
+                }
+            }
+            1 => {
+                for _ in 0..rng.range(1, 3) {
+                    out.push(rng.range(130, 229) as u8);
+                }
+            }
+            2 => {
+                out.push(235);
+                if rng.chance(3, 4) {
+                    out.push(*rng.pick(&[1u8, 128, 129, 0, 33, 100, 127, 235]));
+                }
+            }
+            3 => {
+                out.push(129);
+                for _ in 0..rng.range(0, 4) {
+                    out.push(rng.byte());
+                }
+            }
+            4 | 5 | 6 => {
+                // C40 / Text / X12
+                out.push(*rng.pick(&[230u8, 239, 238]));
+                let n = rng.range(0, 4);
+                for _ in 0..n {
+                    let pair: [u8; 2] = match rng.below(10) {
+                        0 => [0, 0],
+                        1 => [0, 1],
+                        2 => [250, *rng.pick(&[0u8, 1, 2, 255])],
+                        3 => [*rng.pick(&[251u8, 252, 253, 255]), rng.byte()],
+                        4 => c40_pair(rng.below(3) as u16, rng.below(40) as u16, rng.below(40) as u16), // shifts
+                        5 => c40_pair(1, 30, rng.below(40) as u16),                                     // shift 2 + upper shift
+                        6 => c40_pair(rng.below(40) as u16, rng.below(3) as u16, rng.below(3) as u16),  // shift pending at end
+                        7 => [rng.byte(), rng.byte()],
+                        _ => c40_pair(rng.below(40) as u16, rng.below(40) as u16, rng.below(40) as u16),
+                    };
+                    out.extend_from_slice(&pair);
+                }
+                match rng.below(4) {
+                    0 => out.push(254),
+                    1 => out.push(rng.byte()), // half a pair
+                    _ => {}
+                }
+            }
+            7 | 8 => {
+                // EDIFACT
+                out.push(240);
+                for _ in 0..rng.range(0, 3) {
+                    let mut vals = [0u8; 4];
+                    for v in vals.iter_mut() {
+                        *v = if rng.chance(1, 8) { 0b01_1111 } else { rng.below(64) as u8 };
+                    }
+                    let chunk: u32 = ((vals[0] as u32) << 18) | ((vals[1] as u32) << 12) | ((vals[2] as u32) << 6) | vals[3] as u32;
+                    out.push((chunk >> 16) as u8);
+                    out.push((chunk >> 8) as u8);
+                    out.push(chunk as u8);
+                }
+                for _ in 0..rng.below(3) {
+                    out.push(rng.byte());
+                }
+            }
+            9 | 10 => {
+                // Base256 with a crafted length field
+                out.push(231);
+                let payload = rng.range(0, 6);
+                let l: usize = match rng.below(8) {
+                    0 => 0,
+                    1 => payload,
+                    2 => payload + 1,
+                    3 => 249,
+                    4 => 250,
+                    5 => 250 * rng.range(1, 6) + rng.below(250),
+                    6 => 1555,
+                    _ => rng.below(256),
+                };
+                if l < 250 {
+                    let p = out.len() + 1;
+                    out.push(rand255(l as u8, p));
+                } else {
+                    let p = out.len() + 1;
+                    out.push(rand255((l / 250 + 249).min(255) as u8, p));
+                    if rng.chance(7, 8) {
+                        let p = out.len() + 1;
+                        out.push(rand255((l % 250) as u8, p));
+                    }
+                }
+                for _ in 0..payload {
+                    let p = out.len() + 1;
+                    let v = if rng.chance(1, 2) { rng.range(0x80, 0xFF) as u8 } else { rng.byte() };
+                    out.push(rand255(v, p));
+                }
+            }
+            11 => eci_bytes(rng, &mut out),
+            12 => out.push(*rng.pick(&[233u8, 234, 242, 243, 255, 0, 232, 236, 237])),
+            _ => out.push(rng.byte()),
+        }
+    }
+    if rng.chance(1, 4) && !out.is_empty() {
+        let l = rng.below(out.len());
+        out.truncate(l.max(1));
+    }
+    out
+}
+
 const ECIS: &[u32] = &[3, 11, 13, 26, 27, 0, 4, 25, 126, 127, 128, 16382, 16383, 16384, 80000, 999999];
 
 // ---------------- per-property plans ----------------
@@ -848,7 +1055,11 @@ fn beyond_radius_faults(ctx: &Ctx, rng: &mut Rng, s: &SizeInfo, faults: &mut Vec
             }
             weighted_cw_faults(rng, s, &w, faults);
         }
-        4 | 5 => {
+        5 => {
+            let b = rng.below(s.blocks);
+            ghost_faults(ctx, rng, s, b, faults);
+        }
+        4 => {
             // uniform weights up to n
             let w: Vec<usize> = (0..s.blocks).map(|b| rng.range(0, s.block_len(b))).collect();
             weighted_cw_faults(rng, s, &w, faults);
@@ -984,8 +1195,20 @@ fn gen_c05(ctx: &Ctx, rng: &mut Rng, i: u64) -> Trace {
             Trace { prop: "C05".into(), producer: Producer::Stream { data: vec![] }, faults }
         }
         _ => {
-            // no producer at all: a fabricated data codeword stream goes straight to the data decoders
-            Trace { prop: "C05".into(), producer: Producer::Stream { data: gen_stream(rng) }, faults }
+            // no producer at all: a fabricated data codeword stream goes straight to the data decoders,
+            // or rides in a valid symbol (padded to a size's data length, EC computed by the real encoder)
+            let data = if rng.chance(2, 3) { fabricate_stream(rng) } else { gen_stream(rng) };
+            if rng.chance(1, 3) {
+                if let Some(s) = SIZES.iter().filter(|s| s.n_data >= data.len()).min_by_key(|s| s.n_data) {
+                    let mut d = data.clone();
+                    while d.len() < s.n_data {
+                        d.push(if rng.chance(1, 2) { 129 } else { rng.byte() });
+                    }
+                    faults.push(Fault::new("snd_fabricate", Op::SndSet { pos: 0, val: d[0] }));
+                    return Trace { prop: "C05".into(), producer: Producer::Raw { size: s.idx, data: d }, faults };
+                }
+            }
+            Trace { prop: "C05".into(), producer: Producer::Stream { data }, faults }
         }
     }
 }
